@@ -233,8 +233,13 @@ impl<'a> MutVisitor for Norm<'a> {
         }
     }
 
+
     fn visit_vis(&mut self, vis: &mut ast::Visibility) {
         if let ast::VisibilityKind::Restricted { path, shorthand, .. } = &mut vis.kind {
+            // the spelling of restricted visibility: `pub(in ::a::b)` is `pub(in a::b)`
+            if path.segments.len() > 1 && path.segments[0].ident.name == rustc_span::symbol::kw::PathRoot {
+                path.segments.remove(0);
+            }
             if path.segments.len() == 1 {
                 let n = path.segments[0].ident.name;
                 if n == rustc_span::symbol::kw::Crate || n == rustc_span::symbol::kw::SelfLower || n == rustc_span::symbol::kw::Super {
@@ -511,7 +516,8 @@ impl<'a> Norm<'a> {
             return None;
         }
         let ts2 = substitute_dollar(ts)?;
-        let text = pprust::tts_to_string(&ts2);
+        // `lazy_static!` items (`static ref NAME: T = e;`) are parsed the way rustfmt parses them
+        let text = pprust::tts_to_string(&ts2).replace("static ref ", "static zz_ref_");
         let wrapper = format!("fn zz_w() {{ {text} }}");
         let k = self.parse_norm(&wrapper)?;
         let item = k.items.first()?;
@@ -627,6 +633,14 @@ fn post_tokens(toks: Vec<String>) -> Vec<String> {
                 i += pat.len();
                 continue;
             }
+        }
+        // empty generic lists: `Vec<>` is `Vec`, `Foo::<>` is `Foo` (an empty `<` `>` pair is nothing else)
+        if toks[i] == "<" && toks.get(i + 1).map(|s| s.as_str()) == Some(">") {
+            if out.last().map(|s| s.as_str()) == Some("::") {
+                out.pop();
+            }
+            i += 2;
+            continue;
         }
         out.push(toks[i].clone());
         i += 1;
